@@ -577,10 +577,11 @@ theorem g_crypto_target_entries_once (al bl : List Cmd) :
       · exact Or.inl ⟨h, hq⟩
 
 /-- **Matched by peer.**  Every call of the first loop belongs to one entry `s` of the device map; if it has
-a partner `q`, that is an entry of `b` whose peer is the peer of `s`. -/
+a partner `q`, that is an entry of `b` whose peer is the peer of `s`, and the lowest such entry of `b`. -/
 theorem g_crypto_match_by_peer (al bl : List Cmd) (c : Call) (hc : c ∈ (matchLoop al bl).1) :
     ∃ s ∈ seqsOf al, c.aIdx = idxFrom s 0 al ∧
-      ∀ q, c.bSeq = some q → q ∈ seqsOf bl ∧ peerD (grp bl q) = peerD (grp al s) :=
+      ∀ q, c.bSeq = some q → q ∈ seqsOf bl ∧ peerD (grp bl q) = peerD (grp al s) ∧
+        ∀ t ∈ seqsOf bl, peerD (grp bl t) = peerD (grp al s) → q ≤ t :=
   matchLoop_peer al bl c hc
 
 /-- **Fresh numbers.**  An entry of `b` without partner is handed over with no device command, with all its
